@@ -1,6 +1,6 @@
 """Defines a model that applies multiple modules in parallel to the input."""
 
-from concurrent.futures import ThreadPoolExecutor, as_completed
+from concurrent.futures import ThreadPoolExecutor
 from typing import Any, Callable, List, Optional, Tuple
 
 from ..base import ConfigurableModel
@@ -101,7 +101,10 @@ class ParallelModel(ConfigurableModel):
             # Pass *args and **kwargs to each step submitted to the executor
             future_to_step = {executor.submit(step_func, input_data, *args, **kwargs): name for name, step_func in self.step_configs}  # Use new attribute name and step_func
 
-            for future in as_completed(future_to_step):
+            # Collect in submission (= declared) order, not completion order, so that the
+            # result dictionary and the list handed to the aggregator do not depend on which
+            # branch happens to finish first
+            for future in future_to_step:
                 step_name = future_to_step[future]
                 try:
                     results[step_name] = future.result()
